@@ -224,8 +224,24 @@ def run(rep, tier, seed):
             paused.append((sc + "/paused", dict(case, pauses=[k, T])))
     evs, ndirected = events_cases(tier, seed)
     rep.extra["histories_with_workflow_end_during_tier_move"] = ndirected
+    # a long run: pauses and resumes around t = 1000 (housekeeping that is
+    # keyed on the clock)
+    from ..scopes import mkobs, mkcfg, mkcase, dag, CLUSTERS
+    lobs = [mkobs("a", 2, 2, 1, 1, 1, "wa"),
+            mkobs("b", 996, 2, 1, 1, 1, "wa"),
+            mkobs("c", 1003, 1, 1, 1, 1, "wa")]
+    lcfg = mkcfg(CLUSTERS[2][0], lobs, (100, 10), (100, 10), 2, 2)
+    long_case = mkcase(lcfg, {"wa": dag("chain2", [2, 1], [0])},
+                       {"kind": "queue"})
+    long_hist = [None, [400, 1013], [998, 1013], [400, 1001, 1013],
+                 [999, 1000, 1001, 1013]]
+    if tier == "thorough":
+        long_hist += [[k, 1013] for k in range(990, 1010)]
     items = [(sc, c, False) for sc, c in cs + paused] + \
-        [(sc, c, "events") for sc, c in evs]
+        [(sc, c, "events") for sc, c in evs] + \
+        [("S-past-1000" + ("/paused" if h else ""),
+          dict(long_case, pauses=h) if h else long_case, "events")
+         for h in long_hist]
     nfull = len(cs) + len(paused)
 
     def work(i, item):
